@@ -74,8 +74,9 @@ func uncomp(prefix byte, x, y *big.Int) []byte {
 
 // genElementBytes draws a byte string and the name of its class.
 func genElementBytes(t *rapid.T) ([]byte, string) {
-	kind := rapid.SampledFrom([]string{"valid-comp", "valid-uncomp", "identity", "prefix", "length", "x-range", "y-range", "alias-x", "alias-y",
-		"y-mutated", "off-curve", "one-byte", "random", "random-33", "random-65", "cross"}).Draw(t, "kind")
+	kinds := []string{"valid-comp", "valid-uncomp", "identity", "prefix", "length", "x-range", "y-range", "alias-x", "alias-y",
+		"y-mutated", "off-curve", "one-byte", "random", "random-33", "random-65", "cross"}
+	kind := kinds[gen.Pick(t, "kind", len(kinds))]
 	p := randomPoint(t)
 	switch kind {
 	case "valid-comp":
@@ -111,7 +112,7 @@ func genElementBytes(t *rapid.T) ([]byte, string) {
 		}
 	case "x-range", "y-range":
 		var v *big.Int
-		switch rapid.IntRange(0, 6).Draw(t, "which") {
+		switch gen.Pick(t, "which", 7) {
 		case 5:
 			v = gen.PerturbWords(t, ref.P, 64)
 		case 6:
@@ -178,11 +179,11 @@ func genElementBytes(t *rapid.T) ([]byte, string) {
 	case "random":
 		return gen.Bytes(0, 80).Draw(t, "rnd"), kind
 	case "random-33":
-		b := gen.Bytes(33, 33).Draw(t, "rnd")
+		b := gen.RandBytes(t, "rnd", 33)
 		b[0] = 2 + b[0]&1
 		return b, kind
 	case "random-65":
-		b := gen.Bytes(65, 65).Draw(t, "rnd")
+		b := gen.RandBytes(t, "rnd", 65)
 		b[0] = 4
 		return b, kind
 	default: // cross: prefix/length cross-overs and hybrid forms
